@@ -65,8 +65,10 @@ def gen_leaf_fields(rng, n, prefix, defaults=False):
     return out
 
 
-def make_class(rng, fields, rename_p=0.3, defaults=False, name=None):
-    """fields: list of (xoname, kind, sub) -> spec with built HybridClass."""
+def make_class(rng, fields, rename_p=0.3, defaults=False, name=None, lim=None, force_moveable=False):
+    """fields: list of (xoname, kind, sub) -> spec with built HybridClass.
+    lim: the class derives from a base class that declares `_lim_arrays_name` (the option is inherited): the python
+    attribute of every numeric array field exposes only the first `lim` items."""
     name = name or f"Hy{next(_uid)}"
     xof, ren, spec_fields = {}, {}, []
     for xn, kind, sub in fields:
@@ -120,9 +122,19 @@ def make_class(rng, fields, rename_p=0.3, defaults=False, name=None):
     ns = {"_xofields": xof}
     if ren:
         ns["_rename"] = ren
-    cls = type(name, (xo.HybridClass,), ns)
+    if force_moveable:
+        ns["_force_moveable"] = True
+    base = xo.HybridClass
+    if lim is not None:
+        base = register(type(f"{name}LimBase", (xo.HybridClass,), {"_lim_arrays_name": "_nlim", "_nlim": int(lim)}))
+    cls = type(name, (base,), ns)
     register(cls)
-    return {"name": name, "fields": spec_fields, "cls": cls}
+    spec = {"name": name, "fields": spec_fields, "cls": cls}
+    if lim is not None:
+        spec["lim"] = int(lim)
+    if force_moveable:
+        spec["force_moveable"] = True
+    return spec
 
 
 def make_subclass(rng, spec):
@@ -159,7 +171,12 @@ def make_subclass(rng, spec):
         ns["_rename"] = ren
     cls = type(spec["name"] + "Sub", (spec["cls"],), ns)
     register(cls)
-    return {"name": cls.__name__, "fields": fields, "cls": cls, "parent": spec}
+    out = {"name": cls.__name__, "fields": fields, "cls": cls, "parent": spec}
+    if "lim" in spec:
+        out["lim"] = spec["lim"]
+    if spec.get("force_moveable"):
+        out["force_moveable"] = True
+    return out
 
 
 def make_extension(rng, spec):
@@ -173,7 +190,14 @@ def make_extension(rng, spec):
         xof["ext0"] = xo.Int64
         fields.append(("ext0", "ext0", "sc", "Int64", None))
     xof.update(parent._xofields)
-    fields.extend(spec["fields"])
+    vary = rng.random() < 0.5
+    for xn, pn, kind, sub, dflt in spec["fields"]:
+        if vary:
+            # the derived class declares python names of its own for the inherited fields (another name, the same
+            # name, or none at all); the parent class keeps its names
+            r = rng.random()
+            pn = pn if r < 0.4 else (f"q_{xn}" if r < 0.8 else xn)
+        fields.append((xn, pn, kind, sub, dflt))
     if rng.random() < 0.7:
         xof["ext1"] = _arr_type("Float64", [None])
         fields.append(("ext1", "ext1", "arr", ("Float64", [None]), None))
@@ -181,18 +205,26 @@ def make_extension(rng, spec):
         xof["ext1"] = xo.Float64
         fields.append(("ext1", "ext1", "sc", "Float64", None))
     ns = {"_xofields": xof}
-    ren = {xn: pn for xn, pn, *_ in spec["fields"] if xn != pn}
+    ren = {xn: pn for xn, pn, *_ in fields if xn != pn}
     if ren:
         ns["_rename"] = ren
     cls = type(f"{spec['name']}Ext{next(_uid)}", (parent,), ns)
     register(cls)
-    return {"name": cls.__name__, "fields": fields, "cls": cls, "parent": spec}
+    out = {"name": cls.__name__, "fields": fields, "cls": cls, "parent": spec}
+    if "lim" in spec:
+        out["lim"] = spec["lim"]
+    if spec.get("force_moveable"):
+        out["force_moveable"] = True
+    return out
 
 
-def gen_family(rng, levels=2, refs=True, defaults=False, rename_p=0.3):
+def gen_family(rng, levels=2, refs=True, defaults=False, rename_p=0.3, lim_p=0.0, force_p=0.0):
     """-> (specs innermost first, outer spec)"""
     specs = []
-    inner = make_class(rng, gen_leaf_fields(rng, rng.randint(1, 4), "a"), rename_p, defaults)
+
+    def lim():
+        return rng.choice([0, 1, 2, 3]) if rng.random() < lim_p else None
+    inner = make_class(rng, gen_leaf_fields(rng, rng.randint(1, 4), "a"), rename_p, defaults, lim=lim())
     specs.append(inner)
     cur = inner
     for lv in range(1, levels + 1):
@@ -205,7 +237,7 @@ def gen_family(rng, levels=2, refs=True, defaults=False, rename_p=0.3):
         else:
             fields.insert(rng.randint(0, len(fields)), (f"n{lv}", "nested", cur))
             fields.append((f"r{lv}", "ref", rng.choice(specs)))
-        cur = make_class(rng, fields, rename_p, defaults)
+        cur = make_class(rng, fields, rename_p, defaults, lim=lim(), force_moveable=rng.random() < force_p)
         specs.append(cur)
     return specs, cur
 
@@ -335,8 +367,11 @@ def compare_h(spec, mv, obj, resolve=None, path="", errs=None, both=True):
                 except Exception as e:
                     errs.append((p, f"read-{type(e).__name__}", str(e)[:200]))
                     continue
-                if tuple(a.shape) != tuple(want.shape) or a.dtype != want.dtype or np.ascontiguousarray(a).tobytes() != want.tobytes():
-                    errs.append((p, "value|arr", f"read {a.tolist()!r:.120}, model {want.tolist()!r:.120}"))
+                wv = want
+                if vn == "py" and spec.get("lim") is not None:
+                    wv = want[:spec["lim"]]  # the python attribute exposes the first `lim` items only
+                if tuple(a.shape) != tuple(wv.shape) or a.dtype != wv.dtype or np.ascontiguousarray(a).tobytes() != np.ascontiguousarray(wv).tobytes():
+                    errs.append((p, "value|arr", f"read {a.tolist()!r:.120}, model {wv.tolist()!r:.120}"))
             elif kind == "nested":
                 if got is None:
                     errs.append((p, "value|nested", "None"))
